@@ -63,13 +63,18 @@ theorem descriptors_unique_first_occurrence (H : Bytes → Bytes) (chunks : List
   Proofs.writer_dedup H chunks
 
 /-- **T4 (reported verbatim).**  Opening what the header builder wrote reports exactly the
-dictionary's values. -/
+dictionary's values.  (`hhash`, `hsum`: what the reader checks of a dictionary since the F20 / F18
+repairs - a hash length of 1..64 bytes, and chunk sizes that in rebuild order add up to the declared
+source size; the writers' dictionaries meet both, `createArchive_conforms`.) -/
 theorem reader_reports_verbatim (H : Bytes → Bytes) (hH : ∀ x, (H x).length = 64) (features : List Nat)
     (d : ChunkDictionary) (hwf : DictWF d) (data : Bytes)
     (p : ChunkerParameters) (c : ChunkCompression) (cfg : Config) (compr : Compr)
     (hp : d.chunkerParams = some p) (hc : d.chunkCompression = some c)
     (hcfg : configFromParams p = .ok cfg) (hcompr : compressionFromDict features c = .ok compr)
     (hord : ∀ i ∈ d.rebuildOrder, i < d.chunkDescriptors.length)
+    (hhash : 1 ≤ p.chunkHashLength ∧ p.chunkHashLength ≤ 64)
+    (hsum : (d.rebuildOrder.map fun i => ((d.chunkDescriptors[i]?).map (·.sourceSize)).getD 0).sum =
+      d.sourceTotalSize)
     (hsz : ∀ cd ∈ d.chunkDescriptors, 1 ≤ cd.archiveSize)
     (hoff : ∀ cd ∈ d.chunkDescriptors, (buildHeader H d none).length + cd.archiveOffset + cd.archiveSize ≤ usizeMax)
     (hlen : (encodeDictionary d).length + 86 ≤ usizeMax) :
@@ -83,7 +88,7 @@ theorem reader_reports_verbatim (H : Bytes → Bytes) (hH : ∀ x, (H x).length 
       a.chunkDataOffset = (buildHeader H d none).length ∧
       a.chunks = d.chunkDescriptors.map (fun cd =>
         ⟨hashTruncate cd.checksum 64, cd.archiveSize, (buildHeader H d none).length + cd.archiveOffset, cd.sourceSize⟩) :=
-  tryInit_buildHeader H hH features d hwf data p c cfg compr hp hc hcfg hcompr hord hsz hoff hlen
+  tryInit_buildHeader H hH features d hwf data p c cfg compr hp hc hcfg hcompr hord hhash hsum hsz hoff hlen
 
 /-- The CLI writer's temp file is complete when it is copied (so "ends exactly at the last stored
 chunk" also holds for the process, not only for the sequential model). -/
@@ -113,5 +118,9 @@ example :
     dict.rebuildOrder = [0, 0, 1] ∧ dict.chunkDescriptors.map (·.archiveOffset) = [0, 3] ∧
     decodeDictionary (encodeDictionary dict) = some dict := by
   decide +kernel
+
+/-- The library writer flushes its temp file before reading it back (read from api/compress.rs on
+every run; F16 repair), as the command line writer does (`Gen.cliTempFlushedBeforeReturn`). -/
+theorem lib_temp_file_flushed_fact : Gen.libTempFlushedBeforeRewind = true := by decide
 
 end Bita.Props.C11
